@@ -3,7 +3,7 @@
    and error value" = for every list of events of the model of Promise/Model.v (any number of promises and
    calls; every placement of the Swap, the field writes, wake-ups, cancellations, channel sends, container
    sections; values are arbitrary N, errors nil / context.Canceled / context.DeadlineExceeded / other i). *)
-From Util Require Import Common.Base Common.ListLemmas Promise.Model Promise.Spec Promise.Proofs Promise.ProofsMon Promise.ProofsMon2.
+From Util Require Import Common.Base Common.ListLemmas Promise.Model Promise.Spec Promise.Proofs Promise.ProofsMon Promise.ProofsMon2 Promise.ProofsElide.
 
 (* Exactly the first SetResult returns true.  [won p] = SetResult calls on p that won the Swap (parked before
    the writes, or returned true): there is exactly one once isDone is set, none for a promise constructed
@@ -268,3 +268,15 @@ Example c11_example_check_context_error_identity :
   run_check_promise [0] [[1]; [4;0;0;0;0;2;0;0]; [6;0]] [[]; [2;0;0]; [4;0;1]] = [] /\
   run_check_promise [0] [[8;1;0;0]; [5;0;2;0;0]; [6;0]] [[1;0;0]; [2;0;0]; [4;0;1]] = [].
 Proof. vm_compute. repeat split; reflexivity. Qed.
+
+(* A SetResult on a promise that is already resolved is a no-op: it returns false (the new actor is finished with
+   PSetRet p false) and leaves the promise table (up to the unobservable swap counter), the container and every other
+   actor as they were.  The saturation history of the harness (thorough tier) relies on it: it makes 2^32 such calls on
+   one promise and records only three of them as events. *)
+Theorem c11_setresult_on_resolved_is_noop : forall s p v e q,
+  nth_error (proms s) p = Some q -> isdone q = true ->
+  let s' := step (step s (CallSet p v e)) (Step (length (acts s)) 0) in
+  map forget (proms s') = map forget (proms s) /\ cb s' = cb s /\ cprom s' = cprom s /\
+  acts s' = acts s ++ [new_actor (PSetRet p false (nswaps q))].
+Proof. exact setresult_on_resolved_is_noop. Qed.
+Print Assumptions c11_setresult_on_resolved_is_noop.
